@@ -739,6 +739,14 @@ func (g *Gen) bigBuildCase(mode int) {
 			}
 		}
 		doc.Fields = append(doc.Fields, FieldSpec{Kind: "fld", Name: "body", Typ: 't', Len: 2 + d%4, DV: d%2 == 0, Toks: toks})
+		if d < 700 {
+			// a multi-valued field: two values per document that share a term - 700 documents, 1400 values
+			// (the term's cardinality is the number of documents, whatever the number of values)
+			for v := 0; v < 2; v++ {
+				doc.Fields = append(doc.Fields, FieldSpec{Kind: "fld", Name: "multi", Typ: 't', Len: 1 + v, Toks: []TokSpec{
+					{Term: []byte("m"), Freq: 1 + (d+v)%2, Locs: []LocSpec{{Pos: 1 + v, Start: d + v, End: d + v + 2}}}}})
+			}
+		}
 		b.Docs = append(b.Docs, doc)
 	}
 	g.emitBatch(b)
@@ -746,6 +754,8 @@ func (g *Gen) bigBuildCase(mode int) {
 	g.emit("build %s %s", s, b.Name)
 	g.newBuilt(s, b)
 	g.emit("q count %s", s)
+	g.emit("q post %s multi %s ex=nil fl=111 ops=N,N,A340,N,N,A520,N,A698,N,N,N", s, hx([]byte("m")))
+	g.emit("q post %s multi %s ex=3,350,351 fl=111 ops=N,N,N,N,A349,N,N,N", s, hx([]byte("m")))
 	tail := "N,N,N,N,N,N,N,N,N,N,N,N"
 	for _, term := range []string{"a", "b", "c", "d", "e", "f", "nope"} {
 		g.emit("q post %s body %s ex=nil fl=111 ops=N,N,N,A500,N,N,A1015,%s,A%d,N,N,N", s, hx([]byte(term)), tail, nd-3)
